@@ -20,8 +20,19 @@ var c24ElemKinds = []elemKind{
 	{"string", "String", func(i int) string { return fmt.Sprintf("\"s%d\"", i) }},
 	{"float", "Float", func(i int) string { return fmt.Sprintf("%d.5", i) }},
 	{"symbol", "Symbol", func(i int) string { return fmt.Sprintf(":y%d", i) }},
-	{"char", "Char", func(i int) string { return fmt.Sprintf("`%c`", 'a'+i%26) }},
-	{"int8", "Int8", func(i int) string { return fmt.Sprintf("%di8", i%100) }},
+	{"char", "Char", func(i int) string {
+		// injective: remove / contains probes rely on unique elements (wrapping at 26 made `d` stand for 3 and 29)
+		switch {
+		case i < 26:
+			return fmt.Sprintf("`%c`", 'a'+i)
+		case i < 52:
+			return fmt.Sprintf("`%c`", 'A'+i-26)
+		case i < 62:
+			return fmt.Sprintf("`%c`", '0'+i-52)
+		}
+		return fmt.Sprintf("`%c`", 0x4e00+i)
+	}},
+	{"int8", "Int8", func(i int) string { return fmt.Sprintf("%di8", i%128) }}, // histories stay far below 128 distinct values
 	{"mixed", "Int | String | Float", func(i int) string {
 		switch i % 3 {
 		case 0:
